@@ -68,6 +68,7 @@ package handler
 //@   ensures  wTouched[tw.w] == old(wTouched[tw.w])
 //@   ensures  implies(old(tw.timedOut), n == 0 && err == http.ErrHandlerTimeout && bufLen[addr(tw.wbuf)] == old(bufLen[addr(tw.wbuf)]) && tw.code == old(tw.code) && tw.wroteHeader == old(tw.wroteHeader))
 //@   ensures  implies(!old(tw.timedOut), bufLen[addr(tw.wbuf)] == old(bufLen[addr(tw.wbuf)]) + len(p))
+//@   ensures  implies(!old(tw.timedOut), tw.wroteHeader && implies(old(tw.wroteHeader), tw.code == old(tw.code)))
 //@   ensures  tw.timedOut == old(tw.timedOut)
 
 //@ func (tw *timeoutWriter) WriteHeader
